@@ -159,9 +159,17 @@ def check_stream(ctx, pieces, thr, cuts, case):
         if thr is not None and (e - s) > thr:
             ctx.count("valid_longer_than_threshold_not_demanded")
             continue
-        dj = next((j for (a, b, j) in delivered_spans if a == s), None)
         # chunk index at which the last character has arrived
         due = next(k for k, f in enumerate(fed_after) if f >= e)
+        # the delivery that discharges this obligation: a delivered message equal to this literal element, handed over
+        # no earlier than the chunk that completed it (an identical element elsewhere in the stream must not be
+        # mistaken for it)
+        try:
+            et = view_et(ET.fromstring(stream[s:e]))
+        except Exception:
+            continue
+        cands = [j for (j, m) in res.delivered if j >= due and genuine_match(view_lib(m), et)]
+        dj = min(cands) if cands else None
         synced = False
         for k, S in enumerate(sync_starts):
             if S > s:
